@@ -620,6 +620,26 @@ def zoom_case(ctx, idx):
         ctx.check(len(reg) == 4 and reg[0] <= un[:, 0].min() and reg[1] > un[:, 0].max() and reg[2] <= un[:, 1].min() and reg[3] > un[:, 1].max(),
                   "zoom.region", region=reg, unmasked_rows=[int(un[:, 0].min()), int(un[:, 0].max())],
                   unmasked_cols=[int(un[:, 1].min()), int(un[:, 1].max())], **wit)
+    # history: the zoom region and a zoomed array were read above; the SAME mask object is now edited in place (a far pixel is
+    # unmasked) and zoomed again - the window again contains every pixel that is unmasked NOW, with its value
+    cand = np.argwhere(m)
+    if len(cand):
+        far = cand[int(np.argmax(np.abs(cand[:, 0] - un[:, 0].mean()) + np.abs(cand[:, 1] - un[:, 1].mean())))]
+        okh, Z2 = ctx.guarded("zoom.window", lambda: (mask.__setitem__((int(far[0]), int(far[1])), False),
+                                                      np.array(_np(aa.Array2D(values=vals.copy(), mask=mask).zoomed_around_mask(buffer=buffer).native), dtype=float))[1])
+        if okh:
+            m2 = m.copy()
+            m2[far[0], far[1]] = False
+            un2 = np.argwhere(~m2)
+            hit = np.argwhere(Z2 == vals[un2[0, 0], un2[0, 1]]) if Z2.ndim == 2 else np.zeros((0, 2), int)
+            good2 = False
+            if len(hit) == 1:
+                dy, dx = int(un2[0, 0] - hit[0, 0]), int(un2[0, 1] - hit[0, 1])
+                zy, zx = un2[:, 0] - dy, un2[:, 1] - dx
+                inside = (zy >= 0) & (zy < Z2.shape[0]) & (zx >= 0) & (zx < Z2.shape[1])
+                good2 = bool(inside.all()) and bool(np.array_equal(Z2[zy, zx], vals[un2[:, 0], un2[:, 1]]))
+            ctx.check(good2, "zoom.window", history="mask edited in place after its zoom region was read", newly_unmasked=[int(far[0]), int(far[1])],
+                      zoomed=Z2, **wit)
     touches = bool((~m[0, :]).any() or (~m[-1, :]).any() or (~m[:, 0]).any() or (~m[:, -1]).any())
     bh, bw = int(un[:, 0].max() - un[:, 0].min() + 1), int(un[:, 1].max() - un[:, 1].min() + 1)
     ctx.case("zoom", H, W, buffer, m, nontrivial=bool(m.any()),
